@@ -65,6 +65,9 @@ struct P {
     fault: Option<Fault>,
     link_in: LinkCfg,
     link_out: LinkCfg,
+    /// per caller: the task is cancelled at its n-th await point that returns Pending (fault kind `cancel_task`)
+    #[serde(default)]
+    cancel: Vec<Option<u32>>,
 }
 
 #[derive(Clone, Debug, PartialEq)]
@@ -88,7 +91,7 @@ impl Scenario for C19Scn {
         "C19"
     }
     fn rule(&self) -> &'static str {
-        "plan = 1..5 caller tasks x 1..3 sequential calls each (call_method / Proxy::call / no-reply), per call the peer's decision (return / error / never), simulated delay, duplicate reply, stray reply with an unknown serial, unrelated signal, optional method timeout on the simulated clock, optional fault (inbound EOF or ECONNRESET at a byte offset, peer crash at a time), read/write splits, latency, task stalls on callers and on the socket reader; oracle per call: exactly the reply carrying its own token, or an error when faults/timeouts say so, timeout not before its duration elapsed, nothing left pending once the link died or a timeout is configured; non-trivial = at least two calls were outstanding at the peer and the replies left in a different order than the calls arrived, or a fault fired while a call was outstanding"
+        "plan = 1..5 caller tasks x 1..3 sequential calls each (call_method / Proxy::call / no-reply), per call the peer's decision (return / error / never), simulated delay, duplicate reply, stray reply with an unknown serial, unrelated signal, optional method timeout on the simulated clock, optional fault (inbound EOF or ECONNRESET at a byte offset, peer crash at a time; a caller task cancelled at a seeded await point - while sending or while waiting - whose unfinished calls are not judged while everybody else's are), read/write splits, latency, task stalls on callers and on the socket reader; oracle per call: exactly the reply carrying its own token, or an error when faults/timeouts say so, timeout not before its duration elapsed, nothing left pending once the link died or a timeout is configured; non-trivial = at least two calls were outstanding at the peer and the replies left in a different order than the calls arrived, or a fault fired while a call was outstanding"
     }
     fn runs(&self, tier: Tier) -> u64 {
         match tier {
@@ -135,16 +138,31 @@ impl Scenario for C19Scn {
             _ => None,
         };
         let sched = SchedCfg::generate(rng, &["caller", "socket reader", "peer"]);
-        (sched, j(&P { callers, timeout_ms, fault, link_in: gen_read_cfg(rng), link_out: gen_write_cfg(rng) }))
+        let (link_in, link_out) = (gen_read_cfg(rng), gen_write_cfg(rng));
+        // some callers are cancelled in the middle of a call (while sending, while waiting for the reply)
+        let mut cancel = vec![None; nc];
+        if nc >= 2 && rng.chance(1, 4) {
+            cancel[rng.usize(nc)] = Some(rng.below(10) as u32);
+        }
+        (sched, j(&P { callers, timeout_ms, fault, link_in, link_out, cancel }))
     }
 
     fn shrink(&self, body: &Value) -> Vec<Value> {
         let p: P = unj(body);
         let mut out = vec![];
-        for c in drop_candidates(&p.callers) {
+        let zipped: Vec<(Vec<Call>, Option<u32>)> = p.callers.iter().cloned().enumerate().map(|(i, c)| (c, p.cancel.get(i).copied().flatten())).collect();
+        for c in drop_candidates(&zipped) {
             if !c.is_empty() {
                 let mut q = p.clone();
-                q.callers = c;
+                q.callers = c.iter().map(|x| x.0.clone()).collect();
+                q.cancel = c.iter().map(|x| x.1).collect();
+                out.push(j(&q));
+            }
+        }
+        for (i, c) in p.cancel.iter().enumerate() {
+            if c.is_some() {
+                let mut q = p.clone();
+                q.cancel[i] = None;
                 out.push(j(&q));
             }
         }
@@ -215,7 +233,8 @@ impl Scenario for C19Scn {
                 let calls = calls.clone();
                 let recs = recs2.clone();
                 let w3 = ww.clone();
-                tasks.push(ww.spawn(&format!("caller-{ci}"), async move {
+                let cancel_at = p2.cancel.get(ci).copied().flatten();
+                tasks.push(ww.spawn(&format!("caller-{ci}"), cancel_after(&ww, cancel_at, async move {
                     for (k, c) in calls.iter().enumerate() {
                         for _ in 0..c.gap {
                             w3.yield_now().await;
@@ -264,7 +283,7 @@ impl Scenario for C19Scn {
                         g[ci][k].t_done = w3.now();
                         g[ci][k].res = res;
                     }
-                }));
+                })));
             }
             tasks
         });
@@ -379,6 +398,10 @@ impl Scenario for C19Scn {
                         return Verdict::fail("foreign", "foreign-reply", format!("{name} completed with the reply carrying token ({a},{b})"));
                     }
                     _ => {}
+                }
+                // a cancelled caller's unfinished calls are not judged (its finished ones are)
+                if rec.res == Res::Pending && p.cancel.get(ci).copied().flatten().is_some() {
+                    continue;
                 }
                 if rec.t_start == 0 {
                     // never started: an earlier call of this caller is (legitimately or not) stuck; judged there
